@@ -56,8 +56,14 @@ def build(seed, i, tier, avoid=True, force=None):
     if fresh_file:
         init = {} if kind == "dict" else []   # the file does not exist yet: the first write creates it next to the readers
     pre = [{"t": "new_res", "family": fam, "kind": kind, "init": None if fresh_file else init}]
+    late_threading = rs.random() < 0.12
+    if late_threading:
+        # the objects are constructed while threading support is switched OFF; it is switched on before the threads start
+        pre.append({"t": "threading", "on": False})
     for _ in range(nobj):
         pre.append({"t": "new_obj", "rid": 0, "wc": cfg["wc"]})
+    if late_threading:
+        pre.append({"t": "threading", "on": True})
     paths = _thr.CHILD_PATHS[kind] if not fresh_file else []
     hpaths = [[] for _ in range(nobj)]
     hobj = list(range(nobj))
@@ -193,6 +199,13 @@ SCENARIOS = [
     ("F3-d-call-set", "C14-F3", "BufferedJSON", "dict", 60, 2, (1, [], "call", []), (0, [], "setitem", ["x", 111])),
     ("F3-l-call-iadd", "C14-F3", "BufferedJSON", "list", 60, 2, (1, [], "call", []), (0, [], "iadd", [[112, 113]])),
     ("F3-l-get-append", "C14-F3", "BufferedJSONAttr", "list", 0, 2, (1, [], "getitem", [0]), (0, [], "append", [114])),
+    # (added later, at the end so that the scan indices of the scenarios above stay what they were)
+    # same object read and written inside a shared-memory buffered context
+    ("F1-m-call-set", "C14-F1", "MemoryBufferedJSON", "dict", None, 1, (0, [], "call", []), (0, [], "setitem", ["x", 115])),
+    ("F1-m-len-append", "C14-F1", "MemoryBufferedJSONAttr", "list", None, 1, (0, [], "len", []), (0, [], "append", [116])),
+    # a multi-key mapping assigned over an existing nested dict next to a reader of the whole document (atomic publication)
+    ("F2-d-call-setmulti", "C14-F2", "MemoryBufferedJSON", "dict", None, 2, (1, [], "call", []), (0, [], "setitem", ["n", {"p": 117, "q": {"r": 118}, "s": 119}])),
+    ("F1-d-call-setmulti", "C14-F1", "JSON", "dict", "none", 1, (0, [], "call", []), (0, [], "setitem", ["n", {"p": 120, "q": {"r": 121}, "s": 122}])),
 ]
 NSCAN = len(SCENARIOS) * 2 * KMAX
 _known = {}
